@@ -60,6 +60,14 @@ def _base_pels(rng, n):
         pel['secs'] = [s for j, s in enumerate(pel['secs'])
                        if not (bytes(s['id']) in (b'ID', b'PE', b'MR'))]
         out.append(pel)
+    # PELs whose LAST section is an SRC with callouts (nothing behind the callout walk to catch an overrun)
+    shapes = [[dict(fru='p', pce=None, mru=None, loc=0)],
+              [dict(fru='pcs', pce=4, mru=2, loc=8), dict(fru='m', pce=None, mru=None, loc=4)],
+              [dict(fru='s', pce=None, mru=1, loc=0), dict(fru='c', pce=9, mru=None, loc=0)]]
+    for k, sh in enumerate(shapes[: max(1, n // 4)]):
+        pel = genpel.gen_pel(rng, kinds=[], creator='O')
+        pel['secs'] = ([genpel.gen_mt(rng)] if k % 2 else []) + [genpel.gen_src(rng, 'PS', ncallouts=len(sh), shapes=sh)]
+        out.append(pel)
     return out
 
 
